@@ -23,6 +23,7 @@ import Kust.Loc
 import Kust.Nameref
 import Kust.Repl
 import Kust.FmtSchema
+import Kust.Match
 import Kust.Gen.Lists
 import Kust.Gen.FieldSpecs
 import Kust.Gen.Lists
@@ -547,6 +548,60 @@ def runFmtSchema (a : Json) : Except String Json := do
   let r := FmtSchema.format ns (jStrs (a.getObjValD "types")) (jS a "format") n
   return Json.mkObj [("ok", Json.mkObj [("tag", r.tag), ("value", r.value), ("style", r.style)])]
 
+/-! ### PathMatcher -/
+namespace MatchJ
+def isInfixL : List Char → List Char → Bool
+  | p, [] => p.isEmpty
+  | p, c :: cs => Str.isPrefixL p (c :: cs) || isInfixL p cs
+/-- literal patterns, optionally anchored with a leading `^` / trailing `$`: for them `MatchString` on the serialised
+    scalar is containment / prefix / suffix / equality; an anchor anywhere else can never be satisfied -/
+def safe (s : String) : Bool := s.toList.all fun c => c.isAlphanum || c == '-' || c == '_'
+def plainish (s : String) : Bool := s.toList.all fun c => c.isAlphanum || " -_.:/=,%+~^$".toList.contains c
+/-- `strings.TrimSpace(node.String())` of a scalar, where the model can tell -/
+def scalarText (ns : String → Bool) (anchored : Bool) : Node → Option String
+  | .scalar t v s =>
+    if !plainish v then none
+    else if t == "!!null" && v == "" then some "null"
+    else if s &&& 2 != 0 then some ("\"" ++ v ++ "\"")
+    else if s &&& 4 != 0 then some ("'" ++ v ++ "'")
+    else if s == 0 || s == 1 then
+      -- a plain string that reads as another type is quoted by the encoder: only matters under an anchor
+      if anchored && (t == "!!str" && ns v || v == "" || v.toList.any fun c => " :,%~".toList.contains c) then none else some v
+    else none
+  | _ => none
+def hit (ns : String → Bool) (pat : String) (n : Node) : Out Bool :=
+  let cs := pat.toList
+  let anchS := cs.head? == some '^'
+  let cs1 := if anchS then cs.drop 1 else cs
+  let anchE := cs1.getLast? == some '$'
+  let core := if anchE then cs1.dropLast else cs1
+  if !(core.all fun c => c.isAlphanum || c == '-' || c == '_' || c == '^' || c == '$') then .err "unmodelled"
+  else match scalarText ns (anchS || anchE || core.any fun c => c == '^' || c == '$') n with
+    | none => .err "unmodelled"
+    | some text =>
+      let t := text.toList
+      if core.any fun c => c == '^' || c == '$' then .ok false
+      else if anchS && anchE then .ok (t == core)
+      else if anchS then .ok (Str.isPrefixL core t)
+      else if anchE then .ok (Str.isPrefixL core.reverse t.reverse)
+      else .ok (isInfixL core t)
+def stepJ : Match.Step → Json
+  | .key k => Json.arr #[Json.str "k", Json.str k]
+  | .idx i => Json.arr #[Json.str "i", Json.num i]
+end MatchJ
+
+def runMatch (op : String) (a : Json) : Except String Json := do
+  let ns := predOfJson (a.getObjValD "ns")
+  let doc ← nodeOfJson (a.getObjValD "doc")
+  match op with
+  | "path" =>
+    let path ← strList (a.getObjValD "path")
+    let create ← (a.getObjValD "create").getNat?
+    return outToJson (fun (r : Node × List Match.Pos) =>
+      Json.mkObj [("doc", nodeToJson r.1), ("pos", Json.arr (r.2.map fun p => Json.arr (p.map MatchJ.stepJ).toArray).toArray)])
+      (Match.pathMatch (MatchJ.hit ns) ns create path doc)
+  | _ => throw s!"unknown match op {op}"
+
 def runRepl (op : String) (a : Json) : Except String Json := do
   match op with
   | "apply" =>
@@ -574,6 +629,7 @@ def dispatch (comp : String) (args : Json) : Except String Json :=
   | ["nameref", op] => runNameref op args
   | ["loc", op] => runLoc op args
   | ["repl", op] => runRepl op args
+  | ["match", op] => runMatch op args
   | _ => throw s!"unknown component {comp}"
 
 partial def loop (hin hout : IO.FS.Stream) : IO Unit := do
